@@ -593,16 +593,17 @@ static void abf_explore(AbfCase const &c, std::vector<int> const &prefix, int de
 // =================================================================================================
 // Part B: multiple-walker metadynamics through files
 // =================================================================================================
+static bool g_meta_nogrids = false;  // explicit hills instead of grids (also in the mirrors of the peers)
 static std::string meta_conf(std::string const &dir, int wi, int upd)
 {
   return "colvarsRestartFrequency 2\n"
          "colvar {\n name d\n width 0.5\n lowerBoundary 0.0\n upperBoundary 12.0\n distance {\n group1 { atomNumbers 1 }\n group2 { atomNumbers 2 }\n }\n}\n"
          "metadynamics {\n name m\n colvars d\n hillWeight 1.0\n hillWidth 1.0\n newHillFrequency 1\n multipleReplicas on\n replicaID w" + std::to_string(wi) +
-         "\n replicasRegistry registry.txt\n replicaUpdateFrequency " + std::to_string(upd) + "\n}\n";
+         "\n" + std::string(g_meta_nogrids ? " useGrids off\n" : "") + " replicasRegistry registry.txt\n replicaUpdateFrequency " + std::to_string(upd) + "\n}\n";
 }
 static double hill_centre(int w, int s, int L) { return 0.25 + 1.0 * ((w * (L - 1) + (s - 1)) % 12); }
 
-struct MetaCase { int n, L, upd; int restart_walker; int extra; bool new_prefix = false; };
+struct MetaCase { int n, L, upd; int restart_walker; int extra; bool new_prefix = false; bool nogrids = false; };
 
 // multiplicity of every hill (walker p, step s) in walker w's total bias, by probing at the hill centres
 static std::vector<std::vector<int>> meta_multiplicities(Controller &ctl, MetaCase const &c, int w, std::vector<std::vector<bool>> const &deposited, std::string &raw)
@@ -625,6 +626,7 @@ static std::vector<std::vector<int>> meta_multiplicities(Controller &ctl, MetaCa
 
 static void meta_run(MetaCase const &c, std::vector<int> const &order, std::string const &dir, Result &r, std::string const &cj, long trunc_at, int trunc_before_action)
 {
+  g_meta_nogrids = c.nogrids;
   // order: sequence of walker indices (one entry per step action)
   std::string cmd = "rm -rf '" + dir + "' && mkdir -p '" + dir + "'";
   if (system(cmd.c_str()) || chdir(dir.c_str()) != 0) { fprintf(stderr, "HARNESS-ERROR: scratch\n"); exit(2); }
@@ -808,6 +810,8 @@ int main(int argc, char **argv)
       for (int np = 0; np <= (restart >= 0 ? 1 : 0); np++) {
         MetaCase c{2, thorough ? 6 : 5, upd, restart, 6};
         c.new_prefix = (np != 0);
+       for (int ng = 0; ng <= ((upd == 1 && np == 0) ? 1 : 0); ng++) {
+        c.nogrids = (ng != 0);
         // all interleavings of the two walkers' L step actions, followed by `extra` alternating quiescence steps
         int L = c.L;
         std::vector<int> base;
@@ -821,6 +825,7 @@ int main(int argc, char **argv)
           if (!thorough && (fnv(std::string(o.begin(), o.end())) % 4) != 0) continue;
           mj.push_back({c, o, -1, -1});
         } while (std::next_permutation(base.begin(), base.end()));
+       }
       }
       }
     // truncated peer file: canonical alternating order; walker 1 synchronises while walker 0's hills file is cut at byte t
@@ -862,7 +867,7 @@ int main(int argc, char **argv)
       } else {
         MetaJob const &m = mj[j - abf.size()];
         std::string cj = "{\"part\":\"multiple-walker metadynamics\",\"walkers\":" + std::to_string(m.c.n) + ",\"steps\":" + std::to_string(m.c.L) + ",\"replicaUpdateFrequency\":" +
-                         std::to_string(m.c.upd) + ",\"restart_walker\":" + std::to_string(m.c.restart_walker) + (m.c.new_prefix ? ",\"restart_under_new_output_prefix\":true" : "") + "}";
+                         std::to_string(m.c.upd) + ",\"restart_walker\":" + std::to_string(m.c.restart_walker) + (m.c.new_prefix ? ",\"restart_under_new_output_prefix\":true" : "") + (m.c.nogrids ? ",\"useGrids\":\"off\"" : "") + "}";
         r.count("evaluations");
         meta_run(m.c, m.order, "mw", r, cj, m.trunc, m.before);
         if (j == abf.size()) r.sample(cj);
